@@ -96,13 +96,48 @@ def load_known():
         return json.load(f).get('findings', [])
 
 
-def match_known(prop, o, known):
+def expanded_construct(repo, file, function, construct):
+    """the construct with every single-assignment local of its function replaced by its definition (and an assignment's own target by
+    `_`): the same text whatever the locals are called.  None when the construct is not an expression / simple statement."""
+    try:
+        from .normalise import Defs, expand
+        tree = ast.parse(construct)
+        if len(tree.body) != 1:
+            return None
+        fi = repo.func(file, function)
+        defs = Defs(fi.body)
+        st = tree.body[0]
+        stored = {n.id for n in ast.walk(fi.node) if isinstance(n, ast.Name) and isinstance(n.ctx, ast.Store)} - set(fi.params)
+
+        def canon(e):
+            e = expand(e, defs, depth=8, comps=True)
+            order = {}
+            for n in ast.walk(e):          # remaining locals (assigned more than once): numbered by first appearance
+                if isinstance(n, ast.Name) and n.id in stored:
+                    n.id = order.setdefault(n.id, '$%d' % (len(order) + 1))
+            return U(e)
+        if isinstance(st, ast.Expr):
+            return squash(canon(st.value))
+        if isinstance(st, (ast.Assign, ast.AugAssign)):
+            tg = st.targets[0] if isinstance(st, ast.Assign) else st.target
+            t_ = '_' if isinstance(tg, ast.Name) else U(tg)
+            return squash('%s %s %s' % (t_, '=' if isinstance(st, ast.Assign) else 'op=', canon(st.value)))
+    except Exception:
+        return None
+    return None
+
+
+def match_known(prop, o, known, repo=None):
     for k in known:
         if k.get('status') != 'known' or k.get('property') != prop:
             continue
-        if k.get('rule') == o.rule and k.get('function') == o.function and \
-                squash(k.get('construct', '')) == o.construct:
-            return k
+        if k.get('rule') == o.rule and k.get('function') == o.function:
+            if squash(k.get('construct', '')) == o.construct:
+                return k
+            # the same construct after the locals were renamed: compared with every local replaced by its definition
+            if repo is not None and k.get('construct_expanded'):
+                if expanded_construct(repo, o.file, o.function, o.construct) == squash(k['construct_expanded']):
+                    return k
     return None
 
 
@@ -119,7 +154,7 @@ def finish(ctx, t0, seed=0, out=safe_print):
     viol = ctx.violations()
     new = []
     for o in viol:
-        k = match_known(ctx.prop, o, known)
+        k = match_known(ctx.prop, o, known, ctx.repo)
         if k is not None:
             o.known = k
             out('KNOWN-FINDING: property=%s rule=%s %s:%s `%s` -- %s'
